@@ -19,10 +19,20 @@ pub fn gen_prog(e: &mut Ent, cfg: &TypeCfg) -> (Prog, Scope) {
         1 | 2 | 3 => Some(gen_service(e, &sc, 2, cfg)),
         4 | 5 => {
             // a named service definition
-            let body = gen_service(e, &sc, 2, cfg);
+            let mut body = gen_service(e, &sc, 2, cfg);
             let mut name = if e.bool() { "Srv".to_string() } else { (*e.pick(cfg.def_names)).to_string() };
             while env.get(&name).is_some() {
                 name.push('_');
+            }
+            // sometimes the named service is recursive: a method hands out the service itself
+            if e.ratio(1, 3) {
+                if let Ty::Service(ms) = &mut body {
+                    if !ms.iter().any(|m| m.0 == "next") {
+                        let ret = if e.bool() { Ty::Var(name.clone()) } else { Ty::Opt(Box::new(Ty::Var(name.clone()))) };
+                        ms.push(("next".into(), Ty::Func { args: vec![], rets: vec![ret], modes: vec![] }));
+                        ms.sort_by(|a, b| a.0.cmp(&b.0));
+                    }
+                }
             }
             env.defs.push((name.clone(), body));
             sc.defs.push(super::types::DefPlan {
